@@ -10,6 +10,8 @@ lines have pinned the lengths of the symbolic pieces, so this adds no path.
 
 Identity on real `str` outside CrossHair (concrete replay).  Changes CrossHair's representation only.
 """
+import sys
+
 from crosshair.tracers import NoTracing, is_tracing
 from crosshair.libimpl.builtinslib import LazyIntSymbolicStr
 
@@ -43,7 +45,10 @@ _orig_getitem = LazyIntSymbolicStr.__getitem__
 
 
 def _getitem(self, i):
-    return plain(_orig_getitem(self, i))
+    r = _orig_getitem(self, i)
+    if sys._getframe(1).f_globals.get("__name__", "").startswith("crosshair"):
+        return r            # CrossHair's own string algorithms slice and then read the proxy's code points
+    return plain(r)
 
 
 def install_slices():
